@@ -227,10 +227,12 @@ func buildHistory(c *wk.Ctx, i int, r *rand.Rand, os model.OptSet) (*dbx.Runner,
 		time.Sleep(2 * time.Millisecond)
 		g.Release()
 		ru.Stor.ReleaseGates()
-		select {
-		case <-done:
-		case <-time.After(60 * time.Second):
-			return nil, "", fmt.Errorf("Close did not return while a table creation was held and then released")
+		cdone := make(chan struct{})
+		go func() { <-done; close(cdone) }()
+		if why, _ := waitStable(cdone); why == "inconclusive" {
+			return nil, "", fmt.Errorf("harness: inconclusive wait for Close")
+		} else if why != "" {
+			return nil, "", fmt.Errorf("Close did not return while a table creation was held and then released: %s", why)
 		}
 		if kind != "mid-compaction" {
 			close(stopW)
@@ -267,6 +269,10 @@ func readOnlyOpen(c *wk.Ctx, i int) {
 		return
 	}
 	if err != nil {
+		if strings.HasPrefix(err.Error(), "harness:") {
+			c.Inconclusive(err.Error())
+			return
+		}
 		c.Violation(i, "history-failed", err.Error(), map[string]interface{}{"options": os.Desc})
 		return
 	}
@@ -630,10 +636,12 @@ func afterClose(c *wk.Ctx, i int) {
 			defer close(donech)
 			panicked = c.Guard(i, "after-close:"+cl.name, func() { got = cl.f() })
 		}()
-		select {
-		case <-donech:
-		case <-time.After(30 * time.Second):
-			c.Violation(i, "hang-after-close:"+cl.name, cl.name+" on a closed DB did not return within 30 s", wit)
+		if why, vd := waitStable(donech); why == "inconclusive" {
+			c.Inconclusive("slow call after Close, no stable blocked state")
+			return
+		} else if why != "" {
+			wit["verdict"] = vd
+			c.Violation(i, "hang-after-close:"+cl.name, cl.name+" on a closed DB never returns: "+why, wit)
 			return
 		}
 		if panicked {
@@ -813,18 +821,13 @@ func racingClose(c *wk.Ctx, i int) {
 	time.Sleep(time.Duration(200+r.Intn(3000)) * time.Microsecond)
 	cdone := make(chan struct{})
 	go func() { db.Close(); atomic.StoreInt64(&after, 1); close(cdone) }()
-	select {
-	case <-cdone:
-	case <-time.After(60 * time.Second):
-		_, gs := hang.Dump()
-		var where []string
-		for _, g := range gs {
-			js := strings.Join(g.Frames, " | ")
-			if strings.Contains(js, "leveldb.(*DB).Close") {
-				where = append(where, g.State+": "+g.Frames[min(3, len(g.Frames)-1)])
-			}
-		}
-		c.Violation(i, "close-hang-while-racing", fmt.Sprintf("Close racing with %d callers did not return within 60 s: %v", ng, where), wit)
+	if why, vd := waitStable(cdone); why == "inconclusive" {
+		c.Inconclusive("slow Close while racing, no stable blocked state")
+		atomic.StoreInt32(&stop, 1)
+		return
+	} else if why != "" {
+		wit["verdict"] = vd
+		c.Violation(i, "close-hang-while-racing", fmt.Sprintf("Close racing with %d callers never returns: %s", ng, why), wit)
 		atomic.StoreInt32(&stop, 1)
 		return
 	}
@@ -832,18 +835,39 @@ func racingClose(c *wk.Ctx, i int) {
 	atomic.StoreInt32(&stop, 1)
 	wdone := make(chan struct{})
 	go func() { wg.Wait(); close(wdone) }()
-	select {
-	case <-wdone:
-	case <-time.After(60 * time.Second):
+	if why, vd := waitStable(wdone); why == "inconclusive" {
+		c.Inconclusive("slow calls racing Close, no stable blocked state")
+		return
+	} else if why != "" {
 		var names []string
 		lastCall.Range(func(k, v interface{}) bool { names = append(names, v.(string)); return true })
-		c.Violation(i, "call-hang-while-racing-close", fmt.Sprintf("calls racing with Close did not return within 60 s (last calls: %v)", names), wit)
+		wit["verdict"] = vd
+		c.Violation(i, "call-hang-while-racing-close", fmt.Sprintf("calls racing with Close never return (last calls: %v): %s", names, why), wit)
 		return
 	}
 	c.Count("racing_close_cases", 1)
 	if atomic.LoadInt32(&bad) == 0 {
 		c.Nontrivial(fmt.Sprintf("case-%d", i))
 	}
+}
+
+func inDBCall(g hang.G) bool {
+	js := strings.Join(g.Frames, " ")
+	return strings.Contains(js, "main.") && strings.Contains(js, "goleveldb/leveldb.")
+}
+
+// waitStable waits for ch; the generous first wait only starts inspections (two goroutine dumps);
+// it returns "" when ch fired, "inconclusive" when no stable blocked state was found, or a
+// description of the parked frame.
+func waitStable(ch <-chan struct{}) (string, *hang.Verdict) {
+	ok, vd := hang.WaitOrInspect(ch, 60*time.Second, 4*time.Second, 15, func() int64 { return 0 }, inDBCall)
+	switch {
+	case ok:
+		return "", nil
+	case vd == nil:
+		return "inconclusive", nil
+	}
+	return fmt.Sprintf("parked in %s [%s]; other blocked goleveldb goroutines: %v", vd.Parked, vd.ParkedIn, vd.Others), vd
 }
 
 func hangStack() string {
